@@ -1,7 +1,7 @@
 """C20 - separation helper functions close the material balance and meet their targets."""
 import random
 
-from harness import tlc
+from harness import par, tlc
 from harness.drivers import separations as dsp
 
 ASSUME = [
@@ -17,7 +17,8 @@ def key_of(step, clause):
     return 'Separations:%s:%s' % (step['op'], clause)
 
 
-def history(rng, k, n_steps):
+def history(seed, k, n_steps):
+    rng = random.Random(seed)
     w = dsp.World(rng)
     init = w.project()
     steps = []
@@ -41,7 +42,7 @@ def run(ctx):
     elif not r.ok:
         raise tlc.MachineryError(r.out[-3000:])
     ctx.note('MC Separations: %d distinct states, %d transitions' % (r.distinct, r.generated))
-    traces = [history(rng, k, 10) for k in range(150 if quick else 4000)]
+    traces = par.pmap(history, [('%d:%d' % (ctx.seed, k), k, 10) for k in range(150 if quick else 4000)])
     defs, cfgc = dsp.tla_constants()
     stats = dict(ok=0, ops={})
     todo, n_traces = traces, 0
